@@ -143,7 +143,14 @@ def abstract_run(n, cap, seq, row_of):
     """reference outcome sequence of a crash-free delivery: list of 'C'/'F' and the position of first completion.
        Mirrors the documented behaviour: data stored until the first coded fragment that is not refused
        (refused while more than `cap` fragments are missing); then every fragment is a row; complete at full rank."""
-    stored, K, stage2, done_at, outs = set(), [], False, None, []
+    stored, stage2, done_at, outs = set(), False, None, []
+    basis = {}                    # incremental GF(2) rank: leading bit -> reduced row
+    def add_row(v):
+        while v:
+            hb = v.bit_length() - 1
+            if hb in basis: v ^= basis[hb]
+            else:
+                basis[hb] = v; return
     for pos, idx in enumerate(seq):
         if done_at is not None:
             outs.append("F"); continue
@@ -158,8 +165,8 @@ def abstract_run(n, cap, seq, row_of):
                 stage2 = True
         if not stage2 and i0 < n:
             stored.add(i0)
-        K.append(row_of(i0))
-        if ts004.gf2_rank(K) == n:
+        add_row(row_of(i0))
+        if len(basis) == n:
             done_at = pos; outs.append("F")
         else:
             outs.append("C")
